@@ -61,7 +61,7 @@ REQUIRED = ['kind:gauss', 'kind:lognorm', 'kind:trunc', 'kind:pooled', 'kind:het
             'bare', 'all_pooled', 'all_hetero', 'cov_pooled', 'sigma:free', 'sigma:fixed', 'sigma:zero',
             'noise:log', 'noise:additive', 'cov:1d', 'cov:2d', 'times:unsorted', 'filter:composed', 'filter:gmix',
             'filter:lognormal', 'prior_rejected', 'bad_scale', 'special_not_last', 'free_sigma+special',
-            'n_samples=2', 'offset_tested', 'nested', 'late_n_ids', 'cov_hetero', 'n_samples>=10']
+            'n_samples=2', 'offset_tested', 'nested', 'late_n_ids', 'cov_hetero', 'n_samples>=10', 'presorted_filter:nontrivial']
 
 PAR_NAMES = ['alpha', 'beta', 'gamma', 'delta']
 OUT_NAMES = ['conc', 'effect', 'marker']
@@ -660,6 +660,22 @@ def check(case):
         fresh = P3(v0.copy())
         if np.isfinite(fresh):
             case.close(before, fresh, rtol=1e-12, what='posterior from the shared filter vs posterior from a fresh filter')
+
+    # the user sorts the filter themselves (sort_times(argsort(times))) and hands it over with the sorted times: the same
+    # posterior as from the unsorted inputs
+    tm = np.array(s['times'], dtype=float)
+    if len(set(tm.tolist())) == len(tm) and len(tm) >= 2:
+        with case.clause('presorted_filter'):
+            order = np.argsort(tm)
+            f4 = rf.build(s['parts'], _obs(s), s['composed'])
+            f4.sort_times(order.copy())
+            P4 = build(dict(s, times=[float(v) for v in tm[order]]), filt=f4)
+            a, b = P(v0.copy()), P4(v0.copy())
+            if np.isfinite(a):
+                case.close(b, a, rtol=1e-12, what='posterior from a filter sorted by the user and sorted times vs posterior from '
+                                                  'the unsorted inputs')
+            if list(order) != list(range(len(tm))):
+                case.labels.append('presorted_filter:nontrivial')
 
     with case.clause('counts'):
         case.equal(int(P.n_parameters()), L['n_total'], 'n_parameters()')
